@@ -12,6 +12,7 @@ from src import utils
 from src.ir import ast
 
 from vlib.symex import Ob
+from src.ir import types as tp
 from vlib.runner import Job
 from vlib.symrandom import installed
 from vlib import families as F
@@ -91,6 +92,8 @@ def snapshot(p):
             v = d[k]
             if isinstance(v, (str, int, float, bool, type(None))):
                 items.append((k, v))
+            elif isinstance(v, tp.Type):
+                items.append((k, type(v).__name__, str(v), getattr(v, 'can_infer_type_args', None)))
             elif isinstance(v, ast.Node) or hasattr(v, 'name'):
                 items.append((k, type(v).__name__, getattr(v, 'name', None)))
             elif isinstance(v, (list, tuple)):
@@ -214,9 +217,13 @@ OUT = ('programs outside the families (fixtures + generated seeds listed); histo
 
 def jobs(tier):
     out = []
-    hist_pool = (['template/nested-function-4params', 'generated/java/seed1'] if tier == 'quick' else
+    # earlier translations by the same translator: members that leave translator state behind (nested functions, names in
+    # different roles, operators in a super-constructor call, vararg parameters)
+    hist_pool = (['template/nested-function-4params', 'template/name-role-global', 'template/name-role-parameter',
+                  'template/super-constructor-comparison', 'template/vararg-parameter-generic'] if tier == 'quick' else
                  ['fixture/program1', 'fixture/type_analysis12', 'generated/java/seed1', 'generated/kotlin/seed2',
-                  'template/nested-function-4params'])
+                  'template/nested-function-4params', 'template/name-role-global', 'template/name-role-parameter',
+                  'template/name-role-function', 'template/super-constructor-comparison', 'template/vararg-parameter-generic'])
     nseeds = 2 if tier == 'quick' else 5
     for lang in F.LANGS:
         for K in ((2,) if tier == 'quick' else (1, 2, 3)):
